@@ -42,6 +42,8 @@ CHECKS = {
          "TLC totality invariants + TLC-enumerated conversations replayed + trace validation of recorded runs (panic/timeout = no behaviour of the spec)"),
  "C13": ("6", "Lease.tla: the DISCOVER/OFFER, REQUEST/ACK|NAK (and SOLICIT/ADVERTISE, REQUEST/REPLY, rapid commit) exchanges against an adversarial environment, model-checked for LeaseRule/NakRule/RequestRule/IgnoreRule; every server behaviour with one reply per transmission (exhaustive) and simulated/exhaustive behaviours with two are played by a reactive scripted connection against the real nclient4.Request/Renew/Release and nclient6 Solicit/Request/RapidSolicit in virtual time; TLC compares transmissions and outcome with the expectation and judges every transmitted message with the Dhcp4Build/Dhcp6Build operators",
          "TLC model check of Lease.tla + TLC-enumerated server behaviours replayed into the real clients + trace validation with builder operators"),
+ "C09": ("6", "Cost.tla: cost semantics of decoding (flat pass + one copy of the remainder per nesting level on decode and on re-encode), model-checked nesting machine (work <= n + 2*n*depth, at most quadratic) and the bound operators AllocBound(n, depth) / SizeBound(n); the real decoders are measured (bytes allocated by decode + re-encode, reflective retained size, in a child process with a time limit) on the witness families the cost semantics exposes, at sizes up to 65507 bytes, and TLC evaluates the bounds on every measurement; one known finding (compression-pointer fan) is listed in known_findings.txt",
+         "TLC model check of the nesting-cost machine + trace validation of measured allocation against the spec's bound operators"),
 }
 
 def main():
@@ -55,7 +57,7 @@ def main():
             "evidence_file": "/verif/evidence/%s.json" % pid,
             "replay_cmd_template": "./check %s --replay {path}" % pid,
             "engine": "tla-spec",
-            "level_claimed": {"category": "model_checking", "text": text, "design_ref": "DESIGN.md section 5 (%s)" % pid},
+            "level_claimed": {"category": "model_checking" if pid != "C09" else "other", "text": text, "design_ref": "DESIGN.md section 5 (%s)" % pid},
             "level_note": "Trusted: TLC 1.8, the Go harness projection (reads exported fields only), the RFC reading written down in spec/*.tla. Bounded: exhaustive only inside the stated small scopes; sampled (seeded) beyond.",
             "technique": tech,
         })
